@@ -14,6 +14,7 @@ type gen struct {
 	t       *rapid.T
 	n       int  // marker counter: every written value gets its own number
 	tdDense bool // class: template-data at most levels, nested maps at most depths
+	srcDir  bool // class (port 2): output next to the sources, package names around the source package's
 }
 
 func (g *gen) num() int { g.n++; return g.n }
@@ -120,6 +121,8 @@ func (g *gen) scalar(p string, lower, templated bool) any {
 	switch p {
 	case "dir":
 		switch {
+		case g.srcDir && g.pct("dir-is-source-dir", 45):
+			return "{{.InterfaceDir}}" // the documented default: next to the interface
 		case !lower:
 			return fmt.Sprintf("out/zqd%d/{{.SrcPackageName}}", n)
 		case templated && g.pct("dir-templated", 30):
@@ -127,11 +130,22 @@ func (g *gen) scalar(p string, lower, templated bool) any {
 		}
 		return fmt.Sprintf("out/zqd%d", n)
 	case "filename":
+		if g.srcDir && g.pct("filename-test-file", 40) {
+			return fmt.Sprintf("zqf%d_test.go", n)
+		}
 		if templated && g.pct("filename-templated", 35) {
 			return fmt.Sprintf("zqf%d_{{.InterfaceName}}.go", n)
 		}
 		return fmt.Sprintf("zqf%d.go", n)
 	case "pkgname":
+		if g.srcDir {
+			switch g.uni("pkgname-kind", 5) {
+			case 0, 1:
+				return "{{.SrcPackageName}}"
+			case 2, 3:
+				return "{{.SrcPackageName}}_test"
+			}
+		}
 		return fmt.Sprintf("zqp%d", n)
 	case "structname":
 		if templated && g.pct("structname-templated", 35) {
@@ -253,6 +267,7 @@ func (g *gen) case1() Case {
 	// packages: 2-4 siblings; in the recursive class pc is among them and sub-packages of pc may be listed too
 	np := 2 + g.uni("npkgs", 3)
 	paths := rapid.Permutation([]string{"pa", "pb", "pc", "pd"}).Draw(g.t, "pkg-paths")[:np]
+	nested := false
 	if recClass {
 		has := false
 		for _, p := range paths {
@@ -264,7 +279,10 @@ func (g *gen) case1() Case {
 			paths[0] = "pc"
 		}
 		listSub := !known("showconfig/template-data/leak:from@package:into@root", "showconfig/template-data/leak:from@package:into@package")
-		if listSub && g.pct("list-s1", 40) {
+		// nested class: pc and a listed descendant both write `recursive: true`, unlisted packages
+		// lie below the inner one (pc/s1/t, pc/s1/t/u) and below the outer one only (pc/s2, pc/s2/w)
+		nested = listSub && g.pct("nested-recursive-class", 45)
+		if listSub && (nested || g.pct("list-s1", 40)) {
 			paths = append(paths, "pc/s1")
 		}
 		if listSub && g.pct("list-s1-t", 12) {
@@ -277,14 +295,15 @@ func (g *gen) case1() Case {
 	sort.Strings(paths)
 	for _, pth := range paths {
 		p := Pkg{Path: pth}
-		if g.pct("null-package", 10) && !(recClass && pth == "pc") {
+		inner := nested && strings.HasPrefix(pth, "pc/") && (pth == "pc/s1" || g.pct("deeper-recursive", 50))
+		if g.pct("null-package", 10) && !(recClass && pth == "pc") && !inner {
 			p.Null = true
 			c.Pkgs = append(c.Pkgs, p)
 			continue
 		}
-		if g.pct("package-config", 78) || (recClass && pth == "pc") {
+		if g.pct("package-config", 78) || (recClass && pth == "pc") || inner {
 			p.Config = g.level1("package", recClass, pth)
-			if recClass && pth == "pc" && g.pct("pc-recursive", 75) {
+			if (recClass && pth == "pc" && (nested || g.pct("pc-recursive", 75))) || inner {
 				p.Config["recursive"] = true
 			}
 		}
@@ -347,12 +366,16 @@ func (g *gen) case2() Case {
 	c.ConfigVia = g.pick("config-via", "search", "search", "search", "flag", "env")
 	recClass := g.pct("recursive-class", 15)
 	g.tdDense = g.pct("template-data-dense", 25)
+	// class: dir drawn from {source dir, elsewhere}, pkgname from {source package name, <name>_test, other}
+	// at every level; a third of these cases also type-check what was written
+	g.srcDir = g.pct("source-dir-class", 35)
+	c.TypeCheck = g.srcDir && g.pct("type-check-sample", 35)
 	useEnv := g.pct("use-env", 40)
 	if useEnv {
 		c.Env = Level{}
 		c.BoolStyle = g.uni("bool-style", 3)
 	}
-	rtClass := g.pct("replace-type-class", 25) && !known("run/replace-type/at@mock:want@root:got@default", "run/replace-type/at@mock:want@package:got@default", "run/replace-type/at@mock:want@interface:got@default")
+	rtClass := !c.TypeCheck && g.pct("replace-type-class", 25) && !known("run/replace-type/at@mock:want@root:got@default", "run/replace-type/at@mock:want@package:got@default", "run/replace-type/at@mock:want@interface:got@default")
 	top := []string{"root"}
 	if useEnv {
 		top = append(top, "env")
@@ -391,7 +414,7 @@ func (g *gen) case2() Case {
 		perMock(id, false, 45)
 		selection(id, 18)
 	}
-	if _, ok := resolve(c.topChain()).From["dir"]; !ok || resolve(c.topChain()).From["dir"] == "default" {
+	if (!g.srcDir || g.pct("top-level-dir", 50)) && resolve(c.topChain()).From["dir"] == "default" {
 		c.lv(top[g.uni("dir-source", len(top))])["dir"] = g.scalar("dir", false, true)
 	}
 	np := 2 + g.uni("npkgs", 3)
@@ -561,6 +584,19 @@ func (g *gen) case2() Case {
 					l[k] = v
 				}
 			}
+			// a more specific level of the group that already carries the parameter (written together
+			// with another one) must not shadow the new value for part of the file
+			for _, m := range groups[path] {
+				if m.leaf == "" {
+					continue
+				}
+				l := c.lv(m.leaf)
+				for k, v := range val {
+					if _, has := l[k]; has {
+						l[k] = v
+					}
+				}
+			}
 		}
 	}
 	assign("pkgname", 35, 30, 40, false, func(id string, lower bool) Level {
@@ -586,9 +622,11 @@ func (g *gen) case2() Case {
 			return Level{"require-template-schema-exists": g.pct("require-value", 60)}
 		})
 	}
-	assign("formatter", 45, 35, 45, false, func(id string, lower bool) Level {
-		return Level{"formatter": g.scalar("formatter", lower, false)}
-	})
+	if !c.TypeCheck { // only goimports output is meant to compile (the probe carries an unused import)
+		assign("formatter", 45, 35, 45, false, func(id string, lower bool) Level {
+			return Level{"formatter": g.scalar("formatter", lower, false)}
+		})
+	}
 	assign("force-file-write", 45, 35, 45, false, func(id string, lower bool) Level {
 		return Level{"force-file-write": g.pct("ffw-value", 65)}
 	})
@@ -616,7 +654,7 @@ func (g *gen) case2() Case {
 		var cands []string
 		for _, p := range paths2 {
 			f := files[p]
-			if (fail == "force-file-write" && !f.ffw) || (fail == "schema" && f.require) {
+			if (fail == "force-file-write" && !f.ffw && !f.srcDir) || (fail == "schema" && f.require) {
 				cands = append(cands, p)
 			}
 		}
@@ -641,7 +679,7 @@ func (g *gen) case2() Case {
 		switch {
 		case fail == "force-file-write" && p == victim:
 			c.Preexist = append(c.Preexist, p)
-		case f.ffw && g.pct("preexisting", 50):
+		case f.ffw && !f.srcDir && g.pct("preexisting", 50): // a stub next to the sources would break package loading
 			c.Preexist = append(c.Preexist, p)
 		}
 	}
